@@ -1,5 +1,6 @@
 import ClusterVerif.Spec.C14
 import Driver.Parse
+import Driver.C14Crash
 namespace CV.C14
 open CV.Parse
 
@@ -360,6 +361,8 @@ def answer (ws : List String) : String :=
   | "rot" :: rest => answerRot rest
   | "ps" :: rest => answerPs rest
   | "psfile" :: rest => answerPsFile rest
+  | "crash" :: rest => answerCrash rest
+  | "pscrash" :: rest => answerPsCrash rest
   | _ => "bad-case unknown-suite"
 
 end CV.C14
